@@ -68,6 +68,12 @@ def guards(rep, u):
         r_mpt.check_guard(rep, fn, "bn_cmp(v, sign_r)", final_cmp, cmp_dom, (0,))
         if name == "ecdsa_verify_priv_key":
             r_mpt.check_guard(rep, fn, "bn_cmp(priv_key, n)", r_mpt.call_atom("bn_cmp", [_p(fn, 4), curve_n]), cmp_dom, cmp_lt)
+            # d in [1, n-1]: with d = 0 the check u1 + u2*d degenerates and (r = Gx, s = e) verifies
+            r_mpt.check_guard(rep, fn, "bn_is_zero(priv_key)", r_mpt.call_atom("bn_is_zero", [_p(fn, 4)]), (0, 1), (0,))
+        else:
+            # Q != O: the one-byte encoding 00 imports as the point at infinity; u2*O vanishes and (r = Gx, s = e) verifies
+            r_mpt.check_guard(rep, fn, "pub_key->infinity", lambda n_, ps_, fn=fn: n_.get("k") == "mem" and n_.get("f") == "infinity" and
+                              core.strip_casts(n_["b"]).get("k") == "ref" and core.strip_casts(n_["b"]).get("dk") == "parm", (0, 1), (0,))
     fn = u.fn("ecdsa_sign")
     if fn is None:
         raise driver.AnalysisBroken("anchor ecdsa_sign vanished")
@@ -307,6 +313,44 @@ def sign_rule(rep, u, files=("include/math/big_num.h", "include/math/elliptic_cu
     return n
 
 
+def hash_reduction_rule(rep, u):
+    """e = H mod n.  bn_mod_reduce() is the key-range mapping (x mod (n - 1)) + 1 used for private keys and nonces; applied
+    to the hash it yields a different e for every hash >= n (a third of all SHA-256 digests on brainpoolP256r1, half of
+    the 256-bit GOST hashes on CryptoPro-B) and the signature no longer interoperates.  In the three workers the number
+    that received the hash is reduced with a plain modular reduction."""
+    n = 0
+    names = ["ecdsa_sign", "ecdsa_verify", "ecdsa_verify_priv_key"] + sorted(
+        f.name for f in u.function_list if f.relfile() == ECDSA_H and f.has_cfg and any(p_["n"] == "hash" for p_ in f.params) and
+        any(c.get("fn") in ("bn_mod_reduce", "bn_mod") for _p, _r, c, _ps in f.calls()) and f.name not in ("ecdsa_sign", "ecdsa_verify", "ecdsa_verify_priv_key"))
+    for name in names:
+        fn = u.fn(name)
+        if fn is None:
+            raise driver.AnalysisBroken("anchor %s vanished" % name)
+        rep.functions.add(name)
+        hp = fn.params[1]["n"] if name != "ecdsa_sign" else fn.params[1]["n"]
+        holders = set()
+        for _p, _r, c, _ps in fn.calls({"bn_assign", "bn_assign_init", "bn_import_be_bin", "bn_import_le_bin"}):
+            s0 = core.base_ref(c["args"][1])
+            d0 = core.base_ref(c["args"][0])
+            if s0 is not None and d0 is not None and s0.get("dk") == "parm" and s0["n"] == "hash":
+                holders.add(d0["n"])
+        if not holders:
+            rep.undecided("R-DOMAIN", fn, "hash-reduction", "%s reduces the hash with a plain reduction modulo n" % name, "no copy of the hash parameter found")
+            continue
+        for _p, _r, c, _ps in fn.calls({"bn_mod_reduce", "bn_mod", "bn_mod_small"}):
+            a0 = core.base_ref(c["args"][0])
+            if a0 is None or a0["n"] not in holders:
+                continue
+            n += 1
+            desc = "%s reduces the hash with a plain reduction modulo n" % name
+            ok = c["fn"] != "bn_mod_reduce"
+            (rep.proved if ok else rep.violated)(
+                "R-DOMAIN", fn, "hash-reduction", desc,
+                c["fn"] if ok else "bn_mod_reduce (the key mapping (x mod (n-1)) + 1) at line %s: for a hash >= n the value differs from H mod n, other "
+                "implementations reject the signature and theirs is rejected here" % c.get("ln"), c.get("ln"))
+    return n
+
+
 def run(rep, tier):
     us = driver.load_units(units(tier))
     rep.use_units(us)
@@ -331,6 +375,7 @@ def run(rep, tier):
     rep.floor("aliased-argument call shapes", alias_rule(rep, us["ecdsa:default"]), 3)
     rep.floor("hash import sites", hash_length_rule(rep, us["ecdsa:default"]), 6)
     reduce_rule(rep, us["ecdsa:default"])
+    rep.floor("hash reductions", hash_reduction_rule(rep, us["ecdsa:default"]), 3)
     rep.floor("signed-to-digit conversions", sum(sign_rule(rep, u_) for u_ in us.values()) // len(us), 4)
     # the signer's k*G and the private-key verifier run the fixed-base comb: it reads scalar bits only below the table's
     # capacity (C02's rule, with the curve table it needs)
